@@ -65,7 +65,7 @@ package parser
 //@   assigns p.curr, p.next, p.lex, fam:G_pos, fam:G_toks
 //@   requires pi: p.curr.Type == tokT(ppos) && p.next.Type == tokT(ppos + 1) && tokOK(p.curr.Type, p.curr.Value) && tokOK(p.next.Type, p.next.Value) && 0 <= p.lex.position && p.lex.position <= len(p.lex.expression)
 //@   ensures pi: result1 == nil ==> p.curr.Type == tokT(ppos) && p.next.Type == tokT(ppos + 1) && tokOK(p.curr.Type, p.curr.Value) && tokOK(p.next.Type, p.next.Value) && 0 <= p.lex.position && p.lex.position <= len(p.lex.expression)
-//@   ensures[C04] close: result1 == nil ==> tokT(ppos - 1) == const("lexer.CloseSqBraceToken") && ppos > old(ppos) + 1
+//@   ensures[C04] close: result1 == nil ==> tokT(ppos - 1) == const("lexer.CloseSqBraceToken") && ppos > old(ppos) + 1 && result0 != nil
 
 //@ func parser.expression
 //@   tags C10 C04 C09
@@ -118,6 +118,7 @@ package parser
 //@   ensures[C04] close: result1 == nil ==> tokT(ppos - 1) == const("lexer.CloseSqBraceToken") && ppos > old(ppos) && result0 != nil
 //@   loop 1
 //@     invariant p.curr.Type == tokT(ppos) && p.next.Type == tokT(ppos + 1) && tokOK(p.curr.Type, p.curr.Value) && tokOK(p.next.Type, p.next.Value) && 0 <= p.lex.position && p.lex.position <= len(p.lex.expression) && fresh(fields)
+//@     invariant forall k Int :: 0 <= k && k < len(fields) ==> fields[k] != nil
 //@     invariant[C04] separator: ppos == old(ppos) || (tokT(ppos - 1) == const("lexer.CommaToken") && ppos > old(ppos))
 
 //@ func parser.selectObject
@@ -128,6 +129,7 @@ package parser
 //@   ensures[C04] close: result1 == nil ==> tokT(ppos - 1) == const("lexer.CloseBraceToken") && ppos > old(ppos) && result0 != nil
 //@   at advance2#1 assert[C04] key: p.curr.Type == const("lexer.QuotedIdentifierToken") || p.curr.Type == const("lexer.UnquotedIdentifierToken")
 //@   loop 1
+//@     invariant fresh(fields) && fields != nil && (forall k Int :: hasKey(fields, k) ==> getKey(fields, k) != nil)
 //@     invariant p.curr.Type == tokT(ppos) && p.next.Type == tokT(ppos + 1) && tokOK(p.curr.Type, p.curr.Value) && tokOK(p.next.Type, p.next.Value) && 0 <= p.lex.position && p.lex.position <= len(p.lex.expression)
 //@     invariant[C04] separator: ppos == old(ppos) || (tokT(ppos - 1) == const("lexer.CommaToken") && ppos > old(ppos))
 
@@ -139,6 +141,7 @@ package parser
 //@   ensures[C09] progress: result1 == nil ==> ppos > old(ppos) && result0 != nil
 //@   at advance2#1 assert[C04 C19] binding: p.curr.Type == const("lexer.VariableToken") && p.next.Type == const("lexer.AssignToken")
 //@   loop 1
+//@     invariant fresh(variables) && variables != nil && (forall k Int :: hasKey(variables, k) ==> getKey(variables, k) != nil)
 //@     invariant p.curr.Type == tokT(ppos) && p.next.Type == tokT(ppos + 1) && tokOK(p.curr.Type, p.curr.Value) && tokOK(p.next.Type, p.next.Value) && 0 <= p.lex.position && p.lex.position <= len(p.lex.expression)
 //@     invariant[C04] separator: ppos == old(ppos) || (tokT(ppos - 1) == const("lexer.CommaToken") && ppos > old(ppos))
 
@@ -158,6 +161,7 @@ package parser
 //@   assigns p.curr, p.next, p.lex, fam:G_pos, fam:G_toks
 //@   requires pi: p.curr.Type == tokT(ppos) && p.next.Type == tokT(ppos + 1) && tokOK(p.curr.Type, p.curr.Value) && tokOK(p.next.Type, p.next.Value) && 0 <= p.lex.position && p.lex.position <= len(p.lex.expression)
 //@   ensures pi: result2 == nil ==> p.curr.Type == tokT(ppos) && p.next.Type == tokT(ppos + 1) && tokOK(p.curr.Type, p.curr.Value) && tokOK(p.next.Type, p.next.Value) && 0 <= p.lex.position && p.lex.position <= len(p.lex.expression)
+//@   ensures[C03] args: result2 == nil ==> result0 != nil
 //@   ensures[C04] close: result2 == nil ==> tokT(ppos - 1) == const("lexer.CloseParenToken") && ppos > old(ppos) && result0 != nil
 //@   ensures[C02 C08] noargs: old(p.curr.Type) == const("lexer.CloseParenToken") ==> isType(result2, "*github.com/woodsbury/jmespath/internal/parser.InvalidFunctionCallError")
 
@@ -166,6 +170,7 @@ package parser
 //@   assigns p.curr, p.next, p.lex, fam:G_pos, fam:G_toks
 //@   requires pi: p.curr.Type == tokT(ppos) && p.next.Type == tokT(ppos + 1) && tokOK(p.curr.Type, p.curr.Value) && tokOK(p.next.Type, p.next.Value) && 0 <= p.lex.position && p.lex.position <= len(p.lex.expression)
 //@   ensures pi: result2 == nil ==> p.curr.Type == tokT(ppos) && p.next.Type == tokT(ppos + 1) && tokOK(p.curr.Type, p.curr.Value) && tokOK(p.next.Type, p.next.Value) && 0 <= p.lex.position && p.lex.position <= len(p.lex.expression)
+//@   ensures[C03] args: result2 == nil ==> result0 != nil && result1 != nil
 //@   ensures[C04] close: result2 == nil ==> tokT(ppos - 1) == const("lexer.CloseParenToken") && ppos > old(ppos) && result0 != nil
 //@   ensures[C02 C08] noargs: old(p.curr.Type) == const("lexer.CloseParenToken") ==> isType(result2, "*github.com/woodsbury/jmespath/internal/parser.InvalidFunctionCallError")
 
@@ -174,6 +179,7 @@ package parser
 //@   assigns p.curr, p.next, p.lex, fam:G_pos, fam:G_toks
 //@   requires pi: p.curr.Type == tokT(ppos) && p.next.Type == tokT(ppos + 1) && tokOK(p.curr.Type, p.curr.Value) && tokOK(p.next.Type, p.next.Value) && 0 <= p.lex.position && p.lex.position <= len(p.lex.expression)
 //@   ensures pi: result2 == nil ==> p.curr.Type == tokT(ppos) && p.next.Type == tokT(ppos + 1) && tokOK(p.curr.Type, p.curr.Value) && tokOK(p.next.Type, p.next.Value) && 0 <= p.lex.position && p.lex.position <= len(p.lex.expression)
+//@   ensures[C03] args: result2 == nil ==> result0 != nil && result1 != nil
 //@   ensures[C04] close: result2 == nil ==> tokT(ppos - 1) == const("lexer.CloseParenToken") && ppos > old(ppos) && result0 != nil
 //@   ensures[C02 C08] noargs: old(p.curr.Type) == const("lexer.CloseParenToken") ==> isType(result2, "*github.com/woodsbury/jmespath/internal/parser.InvalidFunctionCallError")
 
@@ -182,6 +188,7 @@ package parser
 //@   assigns p.curr, p.next, p.lex, fam:G_pos, fam:G_toks
 //@   requires pi: p.curr.Type == tokT(ppos) && p.next.Type == tokT(ppos + 1) && tokOK(p.curr.Type, p.curr.Value) && tokOK(p.next.Type, p.next.Value) && 0 <= p.lex.position && p.lex.position <= len(p.lex.expression)
 //@   ensures pi: result2 == nil ==> p.curr.Type == tokT(ppos) && p.next.Type == tokT(ppos + 1) && tokOK(p.curr.Type, p.curr.Value) && tokOK(p.next.Type, p.next.Value) && 0 <= p.lex.position && p.lex.position <= len(p.lex.expression)
+//@   ensures[C03] args: result2 == nil ==> result0 != nil && result1 != nil
 //@   ensures[C04] close: result2 == nil ==> tokT(ppos - 1) == const("lexer.CloseParenToken") && ppos > old(ppos) && result0 != nil
 //@   ensures[C02 C08] noargs: old(p.curr.Type) == const("lexer.CloseParenToken") ==> isType(result2, "*github.com/woodsbury/jmespath/internal/parser.InvalidFunctionCallError")
 
@@ -190,6 +197,7 @@ package parser
 //@   assigns p.curr, p.next, p.lex, fam:G_pos, fam:G_toks
 //@   requires pi: p.curr.Type == tokT(ppos) && p.next.Type == tokT(ppos + 1) && tokOK(p.curr.Type, p.curr.Value) && tokOK(p.next.Type, p.next.Value) && 0 <= p.lex.position && p.lex.position <= len(p.lex.expression)
 //@   ensures pi: result3 == nil ==> p.curr.Type == tokT(ppos) && p.next.Type == tokT(ppos + 1) && tokOK(p.curr.Type, p.curr.Value) && tokOK(p.next.Type, p.next.Value) && 0 <= p.lex.position && p.lex.position <= len(p.lex.expression)
+//@   ensures[C03] args: result3 == nil ==> result0 != nil && result1 != nil
 //@   ensures[C04] close: result3 == nil ==> tokT(ppos - 1) == const("lexer.CloseParenToken") && ppos > old(ppos) && result0 != nil
 //@   ensures[C02 C08] noargs: old(p.curr.Type) == const("lexer.CloseParenToken") ==> isType(result3, "*github.com/woodsbury/jmespath/internal/parser.InvalidFunctionCallError")
 
@@ -198,6 +206,7 @@ package parser
 //@   assigns p.curr, p.next, p.lex, fam:G_pos, fam:G_toks
 //@   requires pi: p.curr.Type == tokT(ppos) && p.next.Type == tokT(ppos + 1) && tokOK(p.curr.Type, p.curr.Value) && tokOK(p.next.Type, p.next.Value) && 0 <= p.lex.position && p.lex.position <= len(p.lex.expression)
 //@   ensures pi: result4 == nil ==> p.curr.Type == tokT(ppos) && p.next.Type == tokT(ppos + 1) && tokOK(p.curr.Type, p.curr.Value) && tokOK(p.next.Type, p.next.Value) && 0 <= p.lex.position && p.lex.position <= len(p.lex.expression)
+//@   ensures[C03] args: result4 == nil ==> result0 != nil && result1 != nil && (result3 != nil ==> result2 != nil)
 //@   ensures[C04] close: result4 == nil ==> tokT(ppos - 1) == const("lexer.CloseParenToken") && ppos > old(ppos) && result0 != nil
 //@   ensures[C02 C08] noargs: old(p.curr.Type) == const("lexer.CloseParenToken") ==> isType(result4, "*github.com/woodsbury/jmespath/internal/parser.InvalidFunctionCallError")
 
@@ -206,6 +215,7 @@ package parser
 //@   assigns p.curr, p.next, p.lex, fam:G_pos, fam:G_toks
 //@   requires pi: p.curr.Type == tokT(ppos) && p.next.Type == tokT(ppos + 1) && tokOK(p.curr.Type, p.curr.Value) && tokOK(p.next.Type, p.next.Value) && 0 <= p.lex.position && p.lex.position <= len(p.lex.expression)
 //@   ensures pi: result4 == nil ==> p.curr.Type == tokT(ppos) && p.next.Type == tokT(ppos + 1) && tokOK(p.curr.Type, p.curr.Value) && tokOK(p.next.Type, p.next.Value) && 0 <= p.lex.position && p.lex.position <= len(p.lex.expression)
+//@   ensures[C03] args: result4 == nil ==> result0 != nil && result1 != nil && result2 != nil
 //@   ensures[C04] close: result4 == nil ==> tokT(ppos - 1) == const("lexer.CloseParenToken") && ppos > old(ppos) && result0 != nil
 //@   ensures[C02 C08] noargs: old(p.curr.Type) == const("lexer.CloseParenToken") ==> isType(result4, "*github.com/woodsbury/jmespath/internal/parser.InvalidFunctionCallError")
 
@@ -215,9 +225,11 @@ package parser
 //@   requires pi: p.curr.Type == tokT(ppos) && p.next.Type == tokT(ppos + 1) && tokOK(p.curr.Type, p.curr.Value) && tokOK(p.next.Type, p.next.Value) && 0 <= p.lex.position && p.lex.position <= len(p.lex.expression)
 //@   ensures pi: result1 == nil ==> p.curr.Type == tokT(ppos) && p.next.Type == tokT(ppos + 1) && tokOK(p.curr.Type, p.curr.Value) && tokOK(p.next.Type, p.next.Value) && 0 <= p.lex.position && p.lex.position <= len(p.lex.expression)
 //@   ensures[C04] close: result1 == nil ==> tokT(ppos - 1) == const("lexer.CloseParenToken") && ppos > old(ppos) && len(result0) >= 1
+//@   ensures[C03] args: result1 == nil ==> (forall k Int :: 0 <= k && k < len(result0) ==> result0[k] != nil)
 //@   ensures[C02 C08] noargs: old(p.curr.Type) == const("lexer.CloseParenToken") ==> isType(result1, "*github.com/woodsbury/jmespath/internal/parser.InvalidFunctionCallError")
 //@   loop 1
 //@     invariant p.curr.Type == tokT(ppos) && p.next.Type == tokT(ppos + 1) && tokOK(p.curr.Type, p.curr.Value) && tokOK(p.next.Type, p.next.Value) && 0 <= p.lex.position && p.lex.position <= len(p.lex.expression) && fresh(nodes)
+//@     invariant forall k Int :: 0 <= k && k < len(nodes) ==> nodes[k] != nil
 //@     invariant[C04] separator: (ppos == old(ppos) && len(nodes) == 0) || (tokT(ppos - 1) == const("lexer.CommaToken") && ppos > old(ppos) && len(nodes) >= 1)
 
 //@ func parser.function
@@ -289,3 +301,109 @@ package parser
 //@   ensures result1 == nil ==> result0 != nil
 //@   at parse#1 assume p.curr.Type == tokT(ppos) && p.next.Type == tokT(ppos + 1)
 //@   note the ghost token stream is by definition what the lexer yields, starting with the two tokens read here
+
+// ---------------------------------------------------------------------------
+// AST well-formedness (C03, C12, C02): type invariants, checked where the parser converts a freshly
+// built node to the Node interface and assumed where the evaluator type-switches on a node.
+// Generated from node.go: every child is non-nil; slice steps are non-zero; variadic calls have arguments.
+
+//@ typeinv AbsNode: self.Argument != nil
+//@ typeinv AddNode: self.Left != nil && self.Right != nil
+//@ typeinv AndNode: self.Left != nil && self.Right != nil
+//@ typeinv AssertNumberNode: self.Child != nil
+//@ typeinv AvgNode: self.Argument != nil
+//@ typeinv CeilNode: self.Argument != nil
+//@ typeinv ContainsNode: self.Arguments[0] != nil && self.Arguments[1] != nil
+//@ typeinv DivideNode: self.Left != nil && self.Right != nil
+//@ typeinv EndsWithNode: self.Arguments[0] != nil && self.Arguments[1] != nil
+//@ typeinv EqualNode: self.Left != nil && self.Right != nil
+//@ typeinv FilterNode: self.Child != nil && self.Filter != nil
+//@ typeinv FilterAndProjectNode: self.Left != nil && self.Filter != nil && self.Right != nil
+//@ typeinv FilterAndProjectCurrentNode: self.Filter != nil && self.Child != nil
+//@ typeinv FilterCurrentNode: self.Filter != nil
+//@ typeinv FindFirstNode: self.Arguments[0] != nil && self.Arguments[1] != nil
+//@ typeinv FindFirstBetweenNode: self.Arguments[0] != nil && self.Arguments[1] != nil && self.Arguments[2] != nil && self.Arguments[3] != nil
+//@ typeinv FindFirstFromNode: self.Arguments[0] != nil && self.Arguments[1] != nil && self.Arguments[2] != nil
+//@ typeinv FindLastNode: self.Arguments[0] != nil && self.Arguments[1] != nil
+//@ typeinv FindLastBetweenNode: self.Arguments[0] != nil && self.Arguments[1] != nil && self.Arguments[2] != nil && self.Arguments[3] != nil
+//@ typeinv FindLastFromNode: self.Arguments[0] != nil && self.Arguments[1] != nil && self.Arguments[2] != nil
+//@ typeinv FlattenNode: self.Child != nil
+//@ typeinv FlattenAndProjectNode: self.Left != nil && self.Right != nil
+//@ typeinv FlattenAndProjectCurrentNode: self.Child != nil
+//@ typeinv FloorNode: self.Argument != nil
+//@ typeinv FromItemsNode: self.Argument != nil
+//@ typeinv GreaterNode: self.Left != nil && self.Right != nil
+//@ typeinv GreaterOrEqualNode: self.Left != nil && self.Right != nil
+//@ typeinv GroupByNode: self.Arguments[0] != nil && self.Arguments[1] != nil
+//@ typeinv IndexNode: self.Child != nil
+//@ typeinv IntegerDivideNode: self.Left != nil && self.Right != nil
+//@ typeinv ItemsNode: self.Argument != nil
+//@ typeinv JoinNode: self.Arguments[0] != nil && self.Arguments[1] != nil
+//@ typeinv KeysNode: self.Argument != nil
+//@ typeinv LengthNode: self.Argument != nil
+//@ typeinv LessNode: self.Left != nil && self.Right != nil
+//@ typeinv LessOrEqualNode: self.Left != nil && self.Right != nil
+//@ typeinv LowerNode: self.Argument != nil
+//@ typeinv MapNode: self.Arguments[0] != nil && self.Arguments[1] != nil
+//@ typeinv MaxNode: self.Argument != nil
+//@ typeinv MaxByNode: self.Arguments[0] != nil && self.Arguments[1] != nil
+//@ typeinv MergeNode: (forall k Int :: 0 <= k && k < len(self.Arguments) ==> self.Arguments[k] != nil) && len(self.Arguments) >= 1
+//@ typeinv MinNode: self.Argument != nil
+//@ typeinv MinByNode: self.Arguments[0] != nil && self.Arguments[1] != nil
+//@ typeinv ModuloNode: self.Left != nil && self.Right != nil
+//@ typeinv MultiplyNode: self.Left != nil && self.Right != nil
+//@ typeinv NegateNode: self.Child != nil
+//@ typeinv NotNode: self.Child != nil
+//@ typeinv NotEqualNode: self.Left != nil && self.Right != nil
+//@ typeinv NotNullNode: (forall k Int :: 0 <= k && k < len(self.Arguments) ==> self.Arguments[k] != nil) && len(self.Arguments) >= 1
+//@ typeinv ObjectValuesNode: self.Child != nil
+//@ typeinv OrNode: self.Left != nil && self.Right != nil
+//@ typeinv PadLeftNode: self.Arguments[0] != nil && self.Arguments[1] != nil && self.Arguments[2] != nil
+//@ typeinv PadRightNode: self.Arguments[0] != nil && self.Arguments[1] != nil && self.Arguments[2] != nil
+//@ typeinv PadSpaceLeftNode: self.Arguments[0] != nil && self.Arguments[1] != nil
+//@ typeinv PadSpaceRightNode: self.Arguments[0] != nil && self.Arguments[1] != nil
+//@ typeinv PipeNode: self.Left != nil && self.Right != nil
+//@ typeinv ProjectArrayNode: self.Left != nil && self.Right != nil
+//@ typeinv ProjectArrayCurrentNode: self.Child != nil
+//@ typeinv ProjectObjectNode: self.Left != nil && self.Right != nil
+//@ typeinv ProjectObjectCurrentNode: self.Child != nil
+//@ typeinv PruneArrayNode: self.Child != nil
+//@ typeinv ReplaceNode: self.Arguments[0] != nil && self.Arguments[1] != nil && self.Arguments[2] != nil
+//@ typeinv ReplaceCountNode: self.Arguments[0] != nil && self.Arguments[1] != nil && self.Arguments[2] != nil && self.Arguments[3] != nil
+//@ typeinv ReverseNode: self.Argument != nil
+//@ typeinv SelectArrayNode: self.Child != nil && (forall k Int :: 0 <= k && k < len(self.Fields) ==> self.Fields[k] != nil) && len(self.Fields) >= 1
+//@ typeinv SelectArrayCurrentNode: (forall k Int :: 0 <= k && k < len(self.Fields) ==> self.Fields[k] != nil) && len(self.Fields) >= 1
+//@ typeinv SelectArraySingleNode: self.Child != nil && self.Field != nil
+//@ typeinv SelectArraySingleCurrentNode: self.Field != nil
+//@ typeinv SelectObjectSingleNode: self.Child != nil && self.Field != nil
+//@ typeinv SelectObjectSingleCurrentNode: self.Field != nil
+//@ typeinv SliceNode: self.Child != nil
+//@ typeinv SliceStepNode: self.Child != nil && self.Step != 0
+//@ typeinv SliceStepCurrentNode: self.Step != 0
+//@ typeinv SortNode: self.Argument != nil
+//@ typeinv SortByNode: self.Arguments[0] != nil && self.Arguments[1] != nil
+//@ typeinv SplitNode: self.Arguments[0] != nil && self.Arguments[1] != nil
+//@ typeinv SplitCountNode: self.Arguments[0] != nil && self.Arguments[1] != nil && self.Arguments[2] != nil
+//@ typeinv StartsWithNode: self.Arguments[0] != nil && self.Arguments[1] != nil
+//@ typeinv SubtractNode: self.Left != nil && self.Right != nil
+//@ typeinv SumNode: self.Argument != nil
+//@ typeinv ToArrayNode: self.Argument != nil
+//@ typeinv ToNumberNode: self.Argument != nil
+//@ typeinv ToStringNode: self.Argument != nil
+//@ typeinv TrimNode: self.Arguments[0] != nil && self.Arguments[1] != nil
+//@ typeinv TrimLeftNode: self.Arguments[0] != nil && self.Arguments[1] != nil
+//@ typeinv TrimRightNode: self.Arguments[0] != nil && self.Arguments[1] != nil
+//@ typeinv TrimSpaceNode: self.Argument != nil
+//@ typeinv TrimSpaceLeftNode: self.Argument != nil
+//@ typeinv TrimSpaceRightNode: self.Argument != nil
+//@ typeinv TypeNode: self.Argument != nil
+//@ typeinv UpperNode: self.Argument != nil
+//@ typeinv ValuesNode: self.Argument != nil
+//@ typeinv ZipNode: (forall k Int :: 0 <= k && k < len(self.Arguments) ==> self.Arguments[k] != nil) && len(self.Arguments) >= 1
+//@ typeinv DefineVariables: self.Child != nil && (forall k Int :: hasKey(self.Variables, k) ==> getKey(self.Variables, k) != nil)
+//@ typeinv SelectObjectNode: self.Child != nil && (forall k Int :: hasKey(self.Fields, k) ==> getKey(self.Fields, k) != nil)
+//@ typeinv SelectObjectCurrentNode: (forall k Int :: hasKey(self.Fields, k) ==> getKey(self.Fields, k) != nil)
+
+//@ func parseQuotedIdentifier
+//@   tags C16 C04 C03
+//@   requires delimited: len(s) >= 2
